@@ -230,10 +230,14 @@ def run(tier, seed, rng):
             "class CB(Packet):\n    n = Int(1)\n    body = Data(n)\n    rest = Data(until_marker=b';', include_delimiter=True)\n"
             "class CC(Packet):\n    body = Data(3)\n    z = Data(until_marker=re.compile(b'\\r\\n|\\n'), include_delimiter=True)\n")
     conds = [dict(startswith=b'GE'), dict(endswith=b'/'), dict(contains=b'T '), dict(startswith=b'G', endswith=b'/'), dict(startswith=b'G', contains=b'E', endswith=b'/'),
-             dict(contains=b'.'), dict(startswith=b'\n'), dict(endswith=b'*')]
-    corp = {'CA': [b'\x01GET /\n\x02', b'\x01xGET /\n\x02', b'\x01GE\n\x02', b'\x01/\n\x02', b'\x01G/\n\x00', b'\x01AT /x\n/\n', b'\x01.*\n\x07', b'\x01G\x0bE/\n\x01'],
-            'CB': [b'\x03GET/;', b'\x03GET;/;', b'\x02GEGE/;', b'\x00/;', b'\x04T /./;', b'\x01*G*/;'],
-            'CC': [b'GE/G/\n', b'GE/xGE/\r\n', b'T /T \n', b'.../\n', b'G/G\n/\n']}
+             dict(contains=b'.'), dict(startswith=b'\n'), dict(endswith=b'*'),
+             # prefix and suffix that can OVERLAP in a short value (b'aba', b'#', b'GE/'): S.*E needs len(S) + len(E) bytes
+             # conditions that speak about the KEPT delimiter of an include_delimiter=True string (CB.rest, CC.z): finding D20
+             dict(endswith=b';'), dict(endswith=b'/;'), dict(startswith=b'G', endswith=b';'), dict(contains=b';'), dict(endswith=b'\n'), dict(contains=b'\r\n'),
+             dict(startswith=b'ab', endswith=b'ba'), dict(startswith=b'#', endswith=b'#'), dict(startswith=b'GE', endswith=b'E/'), dict(startswith=b'aa', endswith=b'aa')]
+    corp = {'CA': [b'\x01aba\n\x07', b'\x01#\n\x07', b'\x01abba\n\x07', b'\x01##\n\x02', b'\x01GE/\n\x07', b'\x01aaa\n\x07', b'\x01aaaa\n\x07', b'\x01GET /\n\x02', b'\x01xGET /\n\x02', b'\x01GE\n\x02', b'\x01/\n\x02', b'\x01G/\n\x00', b'\x01AT /x\n/\n', b'\x01.*\n\x07', b'\x01G\x0bE/\n\x01'],
+            'CB': [b'\x03aba;', b'\x01#;', b'\x04abba;', b'\x03GE/;', b'\x03aaa;', b'\x00#;', b'\x03GET/;', b'\x03GET;/;', b'\x02GEGE/;', b'\x00/;', b'\x04T /./;', b'\x01*G*/;'],
+            'CC': [b'aba#\n', b'aaaaa\n', b'GE/G/\n', b'GE/xGE/\r\n', b'T /T \n', b'.../\n', b'G/G\n/\n']}
     ccases, cmeta = [], []
     for cls_, fld in (('CA', 'line'), ('CB', 'body'), ('CB', 'rest'), ('CC', 'body'), ('CC', 'z')):
         names = {'CA': ['k', 'line', 't'], 'CB': ['n', 'body', 'rest'], 'CC': ['body', 'z']}[cls_]
